@@ -119,6 +119,14 @@ func zzH_C08_desc() {
 		return
 	}
 	doc := zzDoc("doc")
+	// a Go-built document may reference one container from two places (it is a
+	// DAG, not a tree): the container then counts once per place
+	switch zzParam("shared") {
+	case "obj":
+		doc = map[string]interface{}{"p": doc, "q": doc}
+	case "arr":
+		doc = []interface{}{doc, doc}
+	}
 	r, rerr := fF(doc)
 	var cat []interface{}
 	for _, c := range zzPreorder(doc, nil) {
@@ -371,6 +379,41 @@ func zzH_C13() {
 	}
 	zzAssert(zzDocUnchanged(), "set-changed-nothing-else")
 	zzAssert(a.Get() == nil || zzSame(a.Get(), before), "get-is-live")
+	// a container written over a container (of the same or of the other kind) is a write like any other
+	for n, nv := range []interface{}{map[string]interface{}{"zz": 1.0}, []interface{}{1.0, 2.0}} {
+		pan := zzTrySet(a, nv)
+		zzAssert(pan == nil, "set-accepts-a-container")
+		if pan != nil {
+			return
+		}
+		var now interface{}
+		if w.loc == 1 {
+			now = w.m[w.k]
+			w.m[w.k] = before
+		} else {
+			now = w.l[w.i]
+			w.l[w.i] = before
+		}
+		if n == 0 {
+			m, isMap := now.(map[string]interface{})
+			zzAssert(isMap && len(m) == 1, "set-hits-predicted-location")
+		} else {
+			l, isList := now.([]interface{})
+			zzAssert(isList && len(l) == 2, "set-hits-predicted-location")
+		}
+	}
+	zzAssert(zzDocUnchanged(), "set-changed-nothing-else")
+}
+
+// zzTrySet calls an accessor's Set and converts a panic into a value.
+func zzTrySet(a Accessor, v interface{}) (pan interface{}) {
+	defer func() {
+		if r := recover(); r != nil {
+			pan = r
+		}
+	}()
+	a.Set(v)
+	return nil
 }
 
 // ---- C18: equivalent spellings ----
